@@ -12,7 +12,7 @@ RULE = 'valid traffic interleaved with adversarial datagrams: every type code in
 EXPLANATION = 'theorems: the composed loop (receive path + decoder + dispatch + user code + send-failure injection) returns a trace and Ok/Err for every script, state satisfying the cursor invariant, configuration and bounded policy - never a panic; ignored messages (unknown type incl. install/update/change-prog and undecodable headers by C04, unknown address/flow) are the identity on the state and emit nothing, so later dispatch is unaffected. Oracle checkC16 (result is OK or ERR) on the real run'
 ASSUMPTIONS = ["user callbacks do not panic, issue commands only through their handle, and use field lists shorter than 2^24",
                "HashMap iteration order is canonicalised (install batches and drop batches are sorted)"]
-LEVEL_TEXT = 'Machine-checked proof (Lean 4) that the composed runtime model - Backend::next over arbitrary datagram bytes, failed receives and stop requests; Msg::from_buf; the dispatch step with arbitrary bounded user code; injected send failures - never panics for any script and always returns Ok or Err, and that every ignored message is the identity on the dispatch state. Tied to the code by differential runs under catch_unwind with adversarial scripts.'
+LEVEL_TEXT = 'Machine-checked proof (Lean 4) that the composed runtime model - Backend::next over arbitrary datagram bytes, failed receives and stop requests; Msg::from_buf; the dispatch step with arbitrary bounded user code; injected send failures - never panics for any script and always returns Ok or Err, and that every ignored message is the identity on the dispatch state. Tied to the code by differential runs under catch_unwind with adversarial scripts. The second sentence over whole histories: spec_ignored_is_identity / spec_unknown_measure_is_identity (an ignored message anywhere in a history leaves every later callback as it would have been) on the flat-map specification the loop refines.'
 LEVEL_NOTE = 'Trusts: Lean kernel; correspondence sampling; panics inside user callbacks and allocation failure are outside the model.'
 TECHNIQUE = 'Lean 4 totality theorem over the composed loop (induction on fuel with the cursor invariant) + differential correspondence + Lean trace oracle'
 
